@@ -43,6 +43,10 @@ impl<'tcx> Cx<'tcx> {
             ty::FnDef(d, _) => { let _ = write!(s, ",\"fndef\":{}", esc(&self.tcx.def_path_str(*d))); }
             ty::Closure(d, _) => { let _ = write!(s, ",\"closure\":{}", esc(&self.tcx.def_path_str(*d))); }
             ty::Slice(inner) => { let _ = write!(s, ",\"slice\":{}", self.ty(*inner)); }
+            ty::Tuple(elems) if !elems.is_empty() => {
+                let es: Vec<String> = elems.iter().map(|e| self.ty(e)).collect();
+                let _ = write!(s, ",\"tuple\":[{}]", es.join(","));
+            }
             _ => {}
         }
         s.push('}');
